@@ -9,6 +9,7 @@
 #include <etl/_type_traits/is_base_of.hpp>
 #include <etl/_type_traits/is_function.hpp>
 #include <etl/_type_traits/is_reference_wrapper.hpp>
+#include <etl/_type_traits/is_same.hpp>
 #include <etl/_utility/forward.hpp>
 
 namespace etl {
@@ -24,7 +25,7 @@ struct invoke_impl {
 template <typename B, typename MT>
 struct invoke_impl<MT B::*> {
     template <typename T, typename Td = decay_t<T>>
-        requires is_base_of_v<B, Td>
+        requires(is_same_v<B, Td> or is_base_of_v<B, Td>)
     static auto get(T&& t) -> T&&;
 
     template <typename T, typename Td = decay_t<T>>
@@ -32,7 +33,7 @@ struct invoke_impl<MT B::*> {
     static auto get(T&& t) -> decltype(t.get());
 
     template <typename T, typename Td = decay_t<T>>
-        requires(!is_base_of_v<B, Td> and !is_reference_wrapper<Td>::value)
+        requires(!is_same_v<B, Td> and !is_base_of_v<B, Td> and !is_reference_wrapper<Td>::value)
     static auto get(T&& t) -> decltype(*etl::forward<T>(t));
 
     template <typename T, typename... Args, typename MT1>
